@@ -271,6 +271,7 @@ def run(ctx):
     check_decoders(ctx)
     check_start_defaults(ctx)
     _items.check_header_decode(ctx, "C02.B2", "Base", "decode_item_header", "variables")
+    _items.check_header_encode(ctx, "C02.B2", "Base", "encode_item_header", "format_code")  # re-encoding a decoded value gives the canonical header
     check_dynamic(ctx)
     n = _items.check_numeric_table(ctx, "C02.T2", NUMERIC, VAR_ATTRS)
     ctx.floor("numeric classes", n, 10)
